@@ -266,6 +266,8 @@ def reader_stores(prog, cd, rep, kinds, rule="segment-stores"):
 def run(prog, rep):
     cd = Codecs(prog)
     cd.flag_errors(rep)
+    from ..codecs import no_stale_derived_state
+    rep.attempt(no_stale_derived_state, prog, cd, rep)
     rep.explanation = (
         "segments-derivation: each _segments property is the canonical numpy composition clump_unmasked(masked_invalid(x)); "
         "segments-single-source: table loop and data loops of _write iterate the same runs, rows are (start, stop-start), data "
